@@ -14,7 +14,7 @@ LEVEL = 'model_checking'
 
 def run(ctx):
     quick = ctx.tier == 'quick'
-    session_check.run(ctx, 'C16', shapes=['o2m_req_casc', 'o2m_opt', 'o2o_req', 'm2m', 'mix_req_nocasc'] if quick else None)
+    session_check.run(ctx, 'C16')
     res, stats, found, nedges, nvisited = cycle_c16.run(ctx, 1500 if quick else 10000, 6 if quick else 7, (1, 2), ctx.seed)
     for what, trace in found:
         last = trace[-1] if trace else {}
